@@ -12,7 +12,6 @@ verus! {
 #[verifier::external_body] #[derive(Clone, Copy)] pub struct SocketAddr { _p: () }
 #[verifier::external_body] #[derive(Clone, Copy)] pub struct Instant { _p: () }
 #[verifier::external_body] #[derive(Clone, Copy)] pub struct Duration { _p: () }
-#[verifier::external_body] pub struct UdpFlow { _p: () }
 pub type ClusterId = String;
 pub type FlowId = usize;
 pub type BackendId = String;
@@ -31,6 +30,8 @@ impl<K, V> HashMap<K, V> {
     pub fn contains_key(&self, k: &K) -> (r: bool) ensures r == self@.contains_key(*k) { unimplemented!() }
     #[verifier::external_body]
     pub fn insert(&mut self, k: K, v: V) -> (r: Option<V>) ensures final(self)@ == old(self)@.insert(k, v) { unimplemented!() }
+    #[verifier::external_body]
+    pub fn remove(&mut self, k: &K) -> (r: Option<V>) ensures final(self)@ == old(self)@.remove(*k) { unimplemented!() }
 }
 // slab::Slab: a map from occupied slot index to value; insert picks a vacant slot (slab documentation)
 #[verifier::external_body]
@@ -43,6 +44,25 @@ impl<T> Slab<T> {
     #[verifier::external_body]
     pub fn insert(&mut self, v: T) -> (r: usize)
         ensures !old(self)@.contains_key(r), final(self)@ == old(self)@.insert(r, v),
+    { unimplemented!() }
+    // Slab::remove panics on a vacant key
+    #[verifier::external_body]
+    pub fn remove(&mut self, k: usize) -> (r: T)
+        requires old(self)@.contains_key(k),
+        ensures final(self)@ == old(self)@.remove(k), r == old(self)@[k],
+    { unimplemented!() }
+    #[verifier::external_body]
+    pub fn contains(&self, k: usize) -> (r: bool) ensures r == self@.contains_key(k) { unimplemented!() }
+    // a slab holds finitely many entries
+    #[verifier::external_body]
+    pub proof fn axiom_finite(&self) ensures self@.dom().finite() {}
+    #[verifier::external_body]
+    pub fn get_mut(&mut self, k: usize) -> (r: Option<&mut T>)
+        ensures
+            match r {
+                Some(v) => old(self)@.contains_key(k) && *v == old(self)@[k] && final(self)@ == old(self)@.insert(k, *final(v)),
+                None => !old(self)@.contains_key(k) && final(self)@ == old(self)@,
+            },
     { unimplemented!() }
 }
 #[verifier::external_body]
@@ -64,17 +84,46 @@ impl FlowKeyExtractor for SourceTupleExtractor {
     fn flow_key(&self, src: SocketAddr, payload: &[u8], cfg: &ClusterConfig) -> Option<FlowKey> { unimplemented!() }
 }
 #[verifier::external_body]
-pub fn verif_new_flow(src: SocketAddr, cfg: &ClusterConfig, payload: &[u8], now: Instant) -> UdpFlow { unimplemented!() }
+pub fn verif_new_flow(src: SocketAddr, cfg: &ClusterConfig, payload: &[u8], now: Instant) -> (r: UdpFlow)
+    ensures r.client == src && r.phase == FlowPhase::AwaitingBackend && r.config == *cfg && r.backend_addr is None,
+{ unimplemented!() }
 #[verifier::external_body]
 pub fn verif_string_clone(s: &String) -> (r: String) ensures r == *s { unimplemented!() }
 #[verifier::external_body]
 pub fn verif_string_is_empty(s: &String) -> bool { unimplemented!() }
+#[verifier::external_body]
+// PROXY v2 DGRAM prefix (proxy_protocol.rs prepend_dgram_header: Vec splice, outside this unit): ASSUMED to put a
+// header that depends only on the two addresses in front of the payload and to keep the payload bytes
+pub uninterp spec fn spec_pp_header(client: SocketAddr, backend: SocketAddr) -> Seq<u8>;
+#[verifier::external_body]
+pub fn prepend_dgram_header(payload: &mut Vec<u8>, client: SocketAddr, backend: SocketAddr) -> (r: usize)
+    ensures final(payload)@ == spec_pp_header(client, backend) + old(payload)@,
+{ unimplemented!() }
+// `self.flows.get_mut(id).map(|f| f.touch(timeout, now))` (closure with a &mut parameter): touches the flow if present
+#[verifier::external_body]
+pub fn verif_touch_if_present(flows: &mut Slab<UdpFlow>, id: usize, timeout: Duration, now: Instant) -> (r: Option<u64>)
+    ensures
+        final(flows)@.dom() =~= old(flows)@.dom(),
+        forall|k: usize| #[trigger] final(flows)@.contains_key(k) ==> final(flows)@[k].same_peers(&old(flows)@[k]) && final(flows)@[k].phase == old(flows)@[k].phase,
+{ unimplemented!() }
+impl FlowKey {
+    // FlowKey::from_src (mod.rs): normalises the port away for 2-tuple affinity; a pure function
+    #[verifier::external_body]
+    pub fn from_src(src: SocketAddr, with_port: bool) -> FlowKey { unimplemented!() }
+}
+#[verifier::external_body]
+pub fn verif_vec_len(v: &Vec<u8>) -> (r: usize) ensures r == v@.len() { unimplemented!() }
+// `<[u8]>::to_vec` (ASSUMED std: an equal copy)
+#[verifier::external_body]
+pub fn verif_to_vec(p: &[u8]) -> (r: Vec<u8>) ensures r@ == p@ { unimplemented!() }
 #[verifier::external_body]
 pub fn verif_umax(a: usize, b: usize) -> (r: usize) ensures r == (if a >= b { a } else { b }) { unimplemented!() }
 #[verifier::external_body]
 pub fn verif_flowid_eq(a: Option<&FlowId>, b: &FlowId) -> (r: bool) ensures r == (a == Some(b)) { unimplemented!() }
 
 //@global-subst "std::time::Instant" => "Instant"
+//@item lib/src/protocol/udp/flow.rs enum CloseReason structural
+//@item lib/src/protocol/udp/flow.rs enum FlowPhase structural
 //@item lib/src/protocol/udp/mod.rs struct FlowKey
 //@item lib/src/protocol/udp/mod.rs struct ClusterConfig
 //@item lib/src/protocol/udp/mod.rs struct Transmit
@@ -82,7 +131,34 @@ pub fn verif_flowid_eq(a: Option<&FlowId>, b: &FlowId) -> (r: bool) ensures r ==
 //@item lib/src/protocol/udp/mod.rs enum MetricEvent
 //@item lib/src/protocol/udp/mod.rs enum Output
 //@item lib/src/protocol/udp/mod.rs enum ConfigEvent
+//@item lib/src/protocol/udp/mod.rs enum ManagerInput
+//@global-subst "std::time::Duration" => "Duration"
+//@item lib/src/protocol/udp/flow.rs struct UdpFlow
 //@item lib/src/protocol/udp/manager.rs struct UdpManager
+
+pub open spec fn legal_edge(from: FlowPhase, to: FlowPhase) -> bool {
+    ||| (from == FlowPhase::AwaitingBackend && to == FlowPhase::Established)
+    ||| (from == FlowPhase::AwaitingBackend && to == FlowPhase::Closing)
+    ||| (from == FlowPhase::Established && to == FlowPhase::Closing)
+}
+pub open spec fn sat_inc(x: u32) -> u32 { if x == u32::MAX { x } else { (x + 1) as u32 } }
+
+// the per-flow state machine: contracts proved in U-udpflow, imported here (modular chain)
+impl UdpFlow {
+    pub open spec fn same_peers(&self, o: &UdpFlow) -> bool {
+        self.client == o.client && self.backend_addr == o.backend_addr && self.backend_id == o.backend_id && self.config == o.config
+            && self.pending_payload == o.pending_payload
+    }
+    pub open spec fn spec_requests_exhausted(&self) -> bool { self.config.requests != 0 && self.requests_seen >= self.config.requests }
+    pub open spec fn spec_responses_exhausted(&self) -> bool { self.config.responses != 0 && self.responses_seen >= self.config.responses }
+    //@import U-udpflow UdpFlow::touch
+    //@import U-udpflow UdpFlow::set_phase
+    //@import U-udpflow UdpFlow::on_client_datagram
+    //@import U-udpflow UdpFlow::on_backend_datagram
+    //@import U-udpflow UdpFlow::teardown_reason
+    //@import U-udpflow UdpFlow::take_proxy_protocol
+}
+pub uninterp spec fn spec_instant_add(a: Instant, d: Duration) -> Instant;
 
 impl<E: FlowKeyExtractor> UdpManager<E> {
     // everything a datagram-level operation must leave alone unless it admits or closes a flow
@@ -91,10 +167,26 @@ impl<E: FlowKeyExtractor> UdpManager<E> {
             && self.cluster == o.cluster && self.hash_seed == o.hash_seed
     }
 
+    // outputs are only ever appended; `quiet_from(n)`: nothing from position n on is a transmission
+    pub open spec fn only_appends(&self, o: &Self) -> bool {
+        o.outputs@.len() <= self.outputs@.len() && forall|i: int| 0 <= i < o.outputs@.len() ==> #[trigger] self.outputs@[i] == o.outputs@[i]
+    }
+    // an established flow knows its backend (set by on_backend_resolved before the phase moves)
+    pub open spec fn flows_wf(&self) -> bool {
+        forall|k: usize| #[trigger] self.flows@.contains_key(k) && self.flows@[k].phase == FlowPhase::Established ==> self.flows@[k].backend_addr is Some
+    }
+    // what may be sent upstream for a client datagram `p` of flow `f`: the datagram itself, optionally behind the PROXY prefix
+    pub open spec fn upstream_bytes_ok(sent: Seq<u8>, p: Seq<u8>, client: SocketAddr, backend: SocketAddr) -> bool {
+        sent == p || sent == spec_pp_header(client, backend) + p
+    }
+    pub open spec fn quiet_from(&self, n: int) -> bool {
+        forall|i: int| n <= i < self.outputs@.len() ==> !(#[trigger] self.outputs@[i] is SendToClient) && !(self.outputs@[i] is SendToBackend)
+    }
+
     //@fn lib/src/protocol/udp/manager.rs UdpManager::on_config
     //@  subst "self.max_flows_high_water.max(n)" => "verif_umax(self.max_flows_high_water, n)"
     //@  ensures
-    //@    final(self).flows@ == old(self).flows@ && final(self).table@ == old(self).table@,           // [reconfiguration-touches-no-flow]
+    //@    final(self).flows@ == old(self).flows@ && final(self).table@ == old(self).table@ && final(self).outputs@ == old(self).outputs@, // [reconfiguration-touches-no-flow]
     //@    event matches ConfigEvent::SetMaxFlows(n) ==> final(self).max_flows == n && final(self).draining == old(self).draining, // [set-max-flows-installs-exactly-the-cap-given]
     //@    event matches ConfigEvent::Drain ==> final(self).draining && final(self).max_flows == old(self).max_flows, // [drain-latches]
     //@    !(event is SetMaxFlows) ==> final(self).max_flows == old(self).max_flows,                    // [cap-changes-only-on-set-max-flows]
@@ -104,23 +196,104 @@ impl<E: FlowKeyExtractor> UdpManager<E> {
     //@fn lib/src/protocol/udp/manager.rs UdpManager::drop_datagram
     //@  ensures
     //@    final(self).flows@ == old(self).flows@ && final(self).table@ == old(self).table@ && final(self).same_knobs(old(self)), // [a-drop-allocates-and-frees-nothing]
+    //@    final(self).only_appends(old(self)) && final(self).quiet_from(old(self).outputs@.len() as int),     // [a-drop-transmits-nothing]
     //@end
 
     // callees of on_client_datagram that are outside this unit: ASSUMED frame contracts (R7)
     //@fn lib/src/protocol/udp/manager.rs UdpManager::forward_on_existing_flow
-    //@  opaque_body
+    //@  substall "payload.to_vec()" => "verif_to_vec(payload)"
+    //@  subst ".expect(\"Established flow always has a backend address\")" => ".unwrap()"
+    //@  before "@end"
+    //@    proof { old(self).flows.axiom_finite(); vstd::set_lib::lemma_len_subset(self.flows@.dom(), old(self).flows@.dom()); }
+    //@  requires
+    //@    old(self).flows_wf(),
     //@  ensures
-    //@    final(self).same_knobs(old(self)),
-    //@    final(self).flows@.len() <= old(self).flows@.len(),
-    //@    final(self).flows@.dom().subset_of(old(self).flows@.dom()),
+    //@    final(self).same_knobs(old(self)) && final(self).only_appends(old(self)),
+    //@    final(self).flows@.dom().subset_of(old(self).flows@.dom()) && final(self).flows@.len() <= old(self).flows@.len(), // [forwarding-admits-no-flow]
+    //@    final(self).flows_wf(),                                                                     // [established-flows-know-their-backend]
+    //@    forall|k: usize| k != flow_id && #[trigger] final(self).flows@.contains_key(k) ==> final(self).flows@[k] == old(self).flows@[k], // [other-flows-untouched]
+    //@    ({
+    //@        let est = old(self).flows@.contains_key(flow_id) && old(self).flows@[flow_id].phase == FlowPhase::Established;
+    //@        let n = old(self).outputs@.len() as int;
+    //@        &&& !est ==> final(self).quiet_from(n)
+    //@        &&& est ==> final(self).outputs@.len() >= n + 2
+    //@            && (final(self).outputs@[n + 1] matches Output::SendToBackend(t) && Some(t.dst) == old(self).flows@[flow_id].backend_addr && t.segment_size is None
+    //@                && Self::upstream_bytes_ok(t.payload@, payload@, old(self).flows@[flow_id].client, old(self).flows@[flow_id].backend_addr->0))
+    //@            && !(final(self).outputs@[n] is SendToClient) && !(final(self).outputs@[n] is SendToBackend)
+    //@            && final(self).quiet_from(n + 2)
+    //@    }),                                                                                         // [a-datagram-of-a-live-flow-goes-once-intact-to-the-flows-own-backend-only]
     //@end
     //@fn lib/src/protocol/udp/manager.rs UdpManager::reschedule
     //@  opaque_body
     //@  ensures
     //@    final(self).same_knobs(old(self)) && final(self).flows@ == old(self).flows@ && final(self).table@ == old(self).table@,
+    //@    final(self).only_appends(old(self)) && final(self).quiet_from(old(self).outputs@.len() as int),
+    //@    forall|i: int| old(self).outputs@.len() <= i < final(self).outputs@.len() ==> #[trigger] final(self).outputs@[i] is ArmTimer,
+    //@end
+    //@fn lib/src/protocol/udp/manager.rs UdpManager::close_flow
+    //@  subst "self.table.get(&key) == Some(&flow_id)" => "verif_flowid_eq(self.table.get(&key), &flow_id)"
+    //@  subst "self.table.get(&own_key) == Some(&flow_id)" => "verif_flowid_eq(self.table.get(&own_key), &flow_id)"
+    //@  drop_dassert 1 iterator adaptor values().all(..) over the key table; not part of the teardown-once clause
+    //@  before "@end"
+    //@    proof { old(self).flows.axiom_finite(); vstd::set_lib::lemma_len_subset(self.flows@.dom(), old(self).flows@.dom()); }
+    //@  ensures
+    //@    final(self).same_knobs(old(self)),
+    //@    final(self).flows@.dom().subset_of(old(self).flows@.dom()),
+    //@    old(self).flows_wf() ==> final(self).flows_wf(),
+    //@    final(self).flows@.len() <= old(self).flows@.len(),
+    //@    forall|k: usize| #[trigger] final(self).flows@.contains_key(k) ==> final(self).flows@[k] == old(self).flows@[k],
+    //@    final(self).only_appends(old(self)) && final(self).quiet_from(old(self).outputs@.len() as int),
+    //@    ({
+    //@        let live = old(self).flows@.contains_key(flow_id) && old(self).flows@[flow_id].phase != FlowPhase::Closing;
+    //@        let n = old(self).outputs@.len() as int;
+    //@        &&& live ==> final(self).flows@.dom() =~= old(self).flows@.dom().remove(flow_id)
+    //@            && final(self).outputs@.len() >= n + 2 && final(self).outputs@[n + 1] == Output::CloseFlow(flow_id)
+    //@            && (forall|i: int| n <= i < final(self).outputs@.len() && i != n + 1 ==> !(#[trigger] final(self).outputs@[i] is CloseFlow))
+    //@        &&& !live ==> final(self).flows@ == old(self).flows@ && final(self).table@ == old(self).table@ && final(self).outputs@ == old(self).outputs@
+    //@    }),                                                                                         // [a-live-flow-is-torn-down-once-and-a-second-teardown-is-a-no-op]
     //@end
     //@fn lib/src/protocol/udp/manager.rs UdpManager::affinity_hash
     //@  opaque_body
+    //@end
+
+    //@fn lib/src/protocol/udp/manager.rs UdpManager::on_backend_resolved
+    //@  subst "let _gen = self\n            .flows\n            .get_mut(flow_id)\n            .map(|f| f.touch(self.cluster.front_timeout, now));" => "let _gen = verif_touch_if_present(&mut self.flows, flow_id, self.cluster.front_timeout, now);"
+    //@  subst "let payload_len = payload.len();" => "let payload_len = verif_vec_len(&payload);"
+    //@  before "@end"
+    //@    proof { old(self).flows.axiom_finite(); vstd::set_lib::lemma_len_subset(self.flows@.dom(), old(self).flows@.dom()); }
+    //@  requires
+    //@    old(self).flows_wf(),
+    //@  ensures
+    //@    final(self).same_knobs(old(self)) && final(self).only_appends(old(self)) && final(self).flows_wf(), // [established-flows-know-their-backend]
+    //@    final(self).flows@.dom().subset_of(old(self).flows@.dom()) && final(self).flows@.len() <= old(self).flows@.len(), // [a-resolution-admits-no-flow]
+    //@    ({
+    //@        let awaiting = old(self).flows@.contains_key(flow_id) && old(self).flows@[flow_id].phase == FlowPhase::AwaitingBackend;
+    //@        let n = old(self).outputs@.len() as int;
+    //@        &&& !awaiting ==> final(self).quiet_from(n) && (forall|k: usize| #[trigger] final(self).flows@.contains_key(k) ==> final(self).flows@[k].backend_addr == old(self).flows@[k].backend_addr)
+    //@        &&& awaiting ==> forall|i: int| n <= i < final(self).outputs@.len() ==> !(#[trigger] final(self).outputs@[i] is SendToClient)
+    //@            && (final(self).outputs@[i] matches Output::SendToBackend(t) ==> t.dst == addr && old(self).flows@[flow_id].pending_payload is Some
+    //@                && Self::upstream_bytes_ok(t.payload@, old(self).flows@[flow_id].pending_payload->0@, old(self).flows@[flow_id].client, addr))
+    //@    }),                                                                                         // [a-late-or-duplicate-resolution-rebinds-nothing-and-the-buffered-datagram-goes-to-the-resolved-backend]
+    //@    forall|k: usize| k != flow_id && #[trigger] final(self).flows@.contains_key(k) ==> final(self).flows@[k].backend_addr == old(self).flows@[k].backend_addr, // [other-flows-keep-their-backend]
+    //@end
+
+    //@fn lib/src/protocol/udp/manager.rs UdpManager::on_backend_datagram
+    //@  substall "payload.to_vec()" => "verif_to_vec(payload)"
+    //@  before "@end"
+    //@    proof { old(self).flows.axiom_finite(); vstd::set_lib::lemma_len_subset(self.flows@.dom(), old(self).flows@.dom()); }
+    //@  ensures
+    //@    final(self).same_knobs(old(self)) && final(self).only_appends(old(self)),                   // [outputs-only-appended]
+    //@    (old(self).flows_wf() ==> final(self).flows_wf()) && final(self).flows@.dom().subset_of(old(self).flows@.dom()) && final(self).flows@.len() <= old(self).flows@.len(), // [a-reply-admits-no-flow]
+    //@    ({
+    //@        let deliverable = old(self).flows@.contains_key(flow_id) && old(self).flows@[flow_id].phase == FlowPhase::Established
+    //@            && payload@.len() <= old(self).max_rx_datagram_size;
+    //@        let n = old(self).outputs@.len() as int;
+    //@        &&& !deliverable ==> final(self).quiet_from(n)
+    //@        &&& deliverable ==> final(self).outputs@.len() >= n + 2
+    //@            && (final(self).outputs@[n + 1] matches Output::SendToClient(t) && t.dst == old(self).flows@[flow_id].client && t.payload@ == payload@ && t.segment_size is None)
+    //@            && !(final(self).outputs@[n] is SendToClient) && !(final(self).outputs@[n] is SendToBackend)
+    //@            && final(self).quiet_from(n + 2)
+    //@    }),                                                                                         // [a-reply-goes-once-intact-to-the-flows-own-client-only]
     //@end
 
     //@fn lib/src/protocol/udp/manager.rs UdpManager::on_client_datagram
@@ -129,12 +302,45 @@ impl<E: FlowKeyExtractor> UdpManager<E> {
     //@  cut "let mut flow = UdpFlow::new(src, self.cluster.clone(), now);" .. "let key_hash" => "let flow = verif_new_flow(src, &self.cluster, payload, now);\n        "
     //@  subst "self.table.get(&key),\n            Some(&flow_id)," => "verif_flowid_eq(self.table.get(&key), &flow_id), true,"
     //@  subst "cluster: self.cluster.cluster.clone()," => "cluster: verif_string_clone(&self.cluster.cluster),"
+    //@  requires
+    //@    old(self).flows_wf(),
     //@  ensures
-    //@    final(self).same_knobs(old(self)),                                                          // [a-datagram-never-moves-the-cap]
+    //@    final(self).same_knobs(old(self)) && final(self).flows_wf() && final(self).only_appends(old(self)), // [a-datagram-never-moves-the-cap]
     //@    final(self).flows@.len() <= old(self).flows@.len() + 1,                                     // [at-most-one-flow-per-datagram]
     //@    final(self).flows@.len() > old(self).flows@.len() ==> !old(self).draining && old(self).flows@.len() < old(self).max_flows, // [admits-only-below-the-cap-in-force]
     //@    final(self).flows@.len() > old(self).flows@.len() ==> final(self).flows@.len() <= old(self).max_flows, // [live-flows-stay-within-the-cap-after-admission]
     //@    forall|id: usize| old(self).flows@.contains_key(id) || !final(self).flows@.contains_key(id) || final(self).flows@.len() > old(self).flows@.len(), // [no-flow-appears-without-admission]
+    //@end
+
+    // the debug-only invariant sweep (check_invariants: iterators over the three collections, outside Verus): takes
+    // `&self`, so it cannot change the manager
+    //@fn lib/src/protocol/udp/manager.rs UdpManager::debug_assert_invariants
+    //@  opaque_body
+    //@end
+
+    //@fn lib/src/protocol/udp/manager.rs UdpManager::abort_flow
+    //@  ensures
+    //@    final(self).same_knobs(old(self)) && final(self).only_appends(old(self)) && final(self).quiet_from(old(self).outputs@.len() as int),
+    //@    old(self).flows_wf() ==> final(self).flows_wf(),
+    //@    ({
+    //@        let live = old(self).flows@.contains_key(flow) && old(self).flows@[flow].phase != FlowPhase::Closing;
+    //@        let n = old(self).outputs@.len() as int;
+    //@        &&& live ==> final(self).flows@.dom() =~= old(self).flows@.dom().remove(flow)
+    //@            && final(self).outputs@.len() >= n + 2 && final(self).outputs@[n + 1] == Output::CloseFlow(flow)
+    //@            && (forall|i: int| n <= i < final(self).outputs@.len() && i != n + 1 ==> !(#[trigger] final(self).outputs@[i] is CloseFlow))
+    //@        &&& !live ==> final(self).flows@ == old(self).flows@ && final(self).outputs@ == old(self).outputs@
+    //@    }),                                                                                         // [abort-tears-down-once-and-is-idempotent]
+    //@end
+
+    //@fn lib/src/protocol/udp/manager.rs UdpManager::handle_input
+    //@  requires
+    //@    old(self).flows_wf(),
+    //@  ensures
+    //@    final(self).flows_wf() && final(self).only_appends(old(self)),                              // [every-input-keeps-the-manager-well-formed]
+    //@    !(input is Config) ==> final(self).same_knobs(old(self)),                                   // [only-reconfiguration-moves-a-knob]
+    //@    final(self).flows@.len() <= old(self).flows@.len() + 1,                                     // [at-most-one-flow-per-input]
+    //@    final(self).flows@.len() > old(self).flows@.len() ==> input is ClientDatagram && !old(self).draining && old(self).flows@.len() < old(self).max_flows, // [only-a-client-datagram-below-the-cap-in-force-admits]
+    //@    input is Config ==> final(self).flows@ == old(self).flows@ && final(self).outputs@ == old(self).outputs@, // [reconfiguration-touches-no-flow-and-transmits-nothing]
     //@end
 }
 
